@@ -7,6 +7,7 @@ import (
 	"bytes"
 	"errors"
 	"fmt"
+	"os"
 
 	"github.com/feichai0017/NoKV/kv"
 	"github.com/feichai0017/NoKV/utils"
@@ -266,6 +267,13 @@ func Run(c Case, r *pbt.Rec) (err error) {
 					trk.MaybeRewrote(ks)
 				}
 				trk.Sync(db.VerifLSM().VerifLayout(), what == "flush")
+				if os.Getenv("VERIF_TRACE") != "" {
+					lay := ""
+					for _, ti := range db.VerifLSM().VerifLayout() {
+						lay += fmt.Sprintf(" L%d/ing=%v/fid=%d", ti.Level, ti.Ingest, ti.FID)
+					}
+					fmt.Printf("TRACE step %d %s -> %s unknown=%v layout:%s\n", i, op.M.Kind, what, trk.Unknown, lay)
+				}
 			}
 			if what == "flush" {
 				for _, mv := range model {
